@@ -72,7 +72,11 @@ func (c *Cluster) exec(s *Step) {
 	c.stats.Steps++
 	c.stats.Ops[s.Op]++
 	c.inner = NewRNG(Mix(c.seed^0x5bd1e995, uint64(c.stepNo)))
-	c.steps = append(c.steps, s)
+	if c.nesting == 0 {
+		// (the sub-steps of a composite step are executed again by the composite
+		// itself when the schedule is replayed: only the composite is recorded)
+		c.steps = append(c.steps, s)
+	}
 
 	if debugTrace {
 		sp := 0
